@@ -108,7 +108,7 @@ func apply4Stream(name string, n int, any bool) {
 		neg := chance(0.6)
 		g := genOpts{depth: 1 + rng.Intn(3), ws: chance(0.4), canonical: !any || chance(0.5), esc: true, scalarRoot: any, dupKeys: any && chance(0.2), lone: any && chance(0.2)}
 		doc := []byte(genDoc(g))
-		pg := &patchGen{g: g, odd: any, pTestOK: 0.75, kinds: allKinds4}
+		pg := &patchGen{g: g, odd: any, pTestOK: 0.75, kinds: allKinds4, orig: doc}
 		nops := rng.Intn(9)
 		var ops []string
 		cur, ok := decodeStd(doc)
